@@ -26,6 +26,7 @@ func main() {
 	}
 	switch os.Args[1] {
 	case "selfcheck":
+		conc.ParentRaceSetup() // the self-check's intentional races are not for the terminal
 		rep, err := litmus.Run()
 		if os.Getenv("VERIF_VERBOSE") != "" {
 			fmt.Print(rep)
